@@ -49,7 +49,8 @@ def gen(rng, tier, quarantine=()):
         q = rng.choice([u for u in universe if "." not in u and u != "mk"] or ["top"])
         if q not in universe:
             universe.append(q)
-        ops.append({"op": "tool", "fn": q, "how": "inplace"})
+        # ... and '@tooled' binds the name to a tooled copy
+        ops.append({"op": "tool", "fn": q, "how": rng.choice(["inplace", "inplace", "decorate"])})
     nprobes = rng.randint(3, 5) if nested_pair else rng.randint(1, 4)
     for i in range(nprobes):
         q = rng.choice(universe[:2] * 2 + universe[2:]) if nested_pair else rng.choice(universe)
